@@ -247,8 +247,12 @@ func execute(c Case) (res result) {
 	call := func(fn starlark.Value, args ...starlark.Value) (starlark.Value, error) {
 		return starlark.Call(thread, fn, starlark.Tuple(args), nil)
 	}
+	var recvBefore V
 	if c.Recv.K != "omit" && c.Recv.K != "args" {
 		recv = recvValue(c)
+		if c.Recv.K == "list" || c.Recv.K == "tuple" {
+			recvBefore, _ = fromStar(recv)
+		}
 	}
 	switch {
 	case c.Op == "index":
@@ -318,6 +322,13 @@ func execute(c Case) (res result) {
 		return res
 	}
 	res.val = v
+	// An operation that is not a mutator leaves its list or tuple operand as it was (sorted(t) must not sort t in place).
+	if !isMutator(c) && recv != nil && (c.Recv.K == "list" || c.Recv.K == "tuple") {
+		if now, cerr := fromStar(recv); cerr != nil || !eqV(now, recvBefore) {
+			res.panicked = fmt.Sprintf("the operation changed its %s operand from %s to %s", c.Recv.K, show(recvBefore), show(now))
+			return res
+		}
+	}
 	// A list computed from a list is a new list: writing to it leaves the operand alone (slices, +, *, list(), sorted, reversed).
 	if ol, ok := out.(*starlark.List); ok && !isMutator(c) {
 		switch c.Op {
